@@ -11,7 +11,8 @@ RULE = ("48 feature shapes that always contain a rule and tags on every level (f
         "kinds defined, followed by a second feature. For each shape and each variation {default, --stop, --tags 'not u' with "
         "one scenario de-selected} EVERY hook invocation of the fault-free run is taken as injection point (k-th hook call "
         "raises an Exception subclass / an AssertionError; once more with every hook and step reading the .status of the "
-        "current feature/rule/scenario before it raises); thorough adds all PAIRS of injection points. Oracle: run() "
+        "current feature/rule/scenario before it raises); a raising cleanup registered by the first scenario's hook, its "
+        "first step or the rule's hook, combined with every hook injection point; thorough adds all PAIRS of injection points. Oracle: run() "
         "returns, verdict failed, complete hook log equals the reference grammar (after-hooks paired), the element concerned "
         "is hook_error and a failed before-hook keeps its body from running, every element outside the concerned element's "
         "ancestry keeps the status/call log of the real fault-free run; no hooks for de-selected scenarios nor in dry-run. "
@@ -63,15 +64,19 @@ def concerned_paths(ref_entry):
 
 def run_case(case):
     prog, cfgname, faults = case[:3]
-    probe = len(case) > 3 and case[3]      # hooks and steps also READ feature/rule/scenario .status (caching property)
+    probe = len(case) > 3 and case[3] is True   # hooks and steps also READ feature/rule/scenario .status (caching property)
+    cleanups = case[3] if len(case) > 3 and isinstance(case[3], dict) else None
     cfg = VARIATIONS[cfgname]
-    obs = harness.run_case(prog, cfg, faults=faults, hooks=True, probe_status=bool(probe))
-    ref = refrun.predict(prog, cfg, faults=faults, hooks=True)
-    v = refrun.compare(prog, ref, obs, what=("verdict", "status", "steps", "calls", "hooks"))
+    obs = harness.run_case(prog, cfg, faults=faults, hooks=True, probe_status=bool(probe), cleanups=cleanups)
+    ref = refrun.predict(prog, cfg, faults=faults, hooks=True, cleanups=cleanups)
+    v = refrun.compare(prog, ref, obs, what=("verdict", "status", "steps", "calls", "hooks") +
+                       (("cleanups",) if cleanups else ()))
     for d, msg in v:
         d.setdefault("fault", ",".join(ref.fault_sites))
         if probe:
             d["probe"] = "status-read-from-hooks"
+        if cleanups:
+            d["earlier"] = "raising-cleanup"
     if not obs["escaped"]:
         nest = refrun._nesting_error(obs["hooks"])
         if nest:
@@ -80,7 +85,8 @@ def run_case(case):
             v.append(({"subcheck": "verdict", "clause": "hook-fault-not-failing", "fault": ",".join(ref.fault_sites)},
                       "a hook raised but run() reports success"))
         # differential: elements outside the concerned element's ancestry keep the fault-free result
-        if faults and len(ref.fault_sites) == 1 and not cfg.get("stop") and "_all" not in ref.fault_sites[0]:
+        if faults and len(ref.fault_sites) == 1 and not cfg.get("stop") and "_all" not in ref.fault_sites[0] \
+                and not cleanups:
             base = fault_free(prog, cfgname)
             conc = sorted(ref.hook_error_elems)
             if conc:
@@ -141,6 +147,31 @@ def cases(tier):
                     yield (prog, cfgname, {k: "exc"}, True)
 
 
+def cleanup_then_fault_cases(tier):
+    """an EARLIER element's cleanup raises (registered in a before_scenario / before_rule / before_feature hook or in
+    a step, on its own layer), then every later hook invocation raises in turn: the later fault must still be
+    attributed to its own element (a raising cleanup must not leave its context layer behind)"""
+    quick = tier == "quick"
+    for si, shp in enumerate(shapes()):
+        if quick and si % 4:
+            continue
+        prog = (shp, SECOND)
+        sites = runcases.cleanup_sites((shp,))
+        # the first scenario-level site, the first step site and the rule site
+        picked = []
+        for want in ("before_scenario", "step", "before_rule"):
+            for trig, layer in sites:
+                if layer is None and (trig[1] == want if trig[0] == "hook" else trig[0] == want):
+                    picked.append(trig)
+                    break
+        for trig in picked:
+            cl = {trig: [("c0", True, None)]}
+            n = runcases.hook_count(prog, VARIATIONS["default"], cleanups=cl)
+            yield (prog, "default", None, cl)
+            for k in range(n):
+                yield (prog, "default", {k: "exc"}, cl)
+
+
 def pair_cases(tier):
     for si, shp in enumerate(shapes()):
         prog = (shp, SECOND)
@@ -158,6 +189,8 @@ def run(ctx):
     ctx.sweep(run_case, cases(ctx.tier), chunk=32, name="single hook fault at every invocation")
     ctx.sweep(nohook_case, [((s, SECOND), m) for s in shapes() for m in ("dry", "desel")], chunk=4,
               name="no hooks in dry-run / for de-selected scenarios")
+    ctx.sweep(run_case, cleanup_then_fault_cases(ctx.tier), chunk=32,
+              name="a raising cleanup of an earlier element, then a single hook fault at every invocation")
     if not ctx.quick:
         ctx.sweep(run_case, pair_cases(ctx.tier), chunk=64, name="pairs of hook faults")
     sites = set()
